@@ -62,10 +62,14 @@ type Case struct {
 
 // Step is one further login of a sequence.
 type Step struct {
-	SP        *SPConf     `json:"sp,omitempty"` // nil = configuration and registration unchanged
-	Sess      idpkit.Sess `json:"session"`
-	Pending   int         `json:"pending,omitempty"`
-	AnswerPos int         `json:"answer_pos,omitempty"`
+	SP *SPConf `json:"sp,omitempty"` // nil = configuration and registration unchanged
+	// IDP, when set, re-configures the public fields of the same IdentityProvider value before this login
+	// (signature method, key pair, Key / Signer, intermediates, ...; same base URL); the SP then refreshes the
+	// IdP metadata it trusts from what the IdP publishes now.
+	IDP       *idpkit.IDPConf `json:"idp,omitempty"`
+	Sess      idpkit.Sess     `json:"session"`
+	Pending   int             `json:"pending,omitempty"`
+	AnswerPos int             `json:"answer_pos,omitempty"`
 }
 
 func excluded(slug string) bool { return os.Getenv("VERIF_EXCLUDE_"+slug) == "1" }
@@ -178,6 +182,15 @@ func gen(t *rapid.T) Case {
 					next.Signed = false
 				}
 				st.SP, cur = &next, next
+			}
+			if rapid.IntRange(0, 2).Draw(t, "step-idp") == 0 {
+				x := idpkit.IDPConf{KeyName: rapid.SampledFrom([]string{"", "", "idp2"}).Draw(t, "step-idp-key"), Signer: rapid.Bool().Draw(t, "step-idp-signer"),
+					SigMethod: rapid.SampledFrom(idpkit.RSAMethods).Draw(t, "step-idp-method"), Intermediates: rapid.SampledFrom([]int{0, 1, 2}).Draw(t, "step-idp-intermediates")}.
+					WithExtras(rapid.Bool().Draw(t, "step-idp-logout"), rapid.Bool().Draw(t, "step-idp-login"), rapid.SampledFrom([]int{0, 1}).Draw(t, "step-idp-valid"), rapid.Bool().Draw(t, "step-idp-template"), false)
+				if rapid.IntRange(0, 5).Draw(t, "step-idp-ecdsa") == 0 {
+					x.KeyName, x.Signer, x.SigMethod = "idpec", true, dsig.ECDSASHA256SignatureMethod
+				}
+				st.IDP = &x
 			}
 			if rapid.IntRange(0, 2).Draw(t, "step-pending") == 0 {
 				st.Pending = rapid.IntRange(1, 3).Draw(t, "step-npending")
@@ -320,6 +333,18 @@ func check(c Case) (res pbt.Result) {
 		res.Classes = append(res.Classes, "sequence:further-login")
 		res.NonTrivial = true
 		what := "unchanged registration"
+		if st.IDP != nil {
+			x := *st.IDP
+			x.Base = c.IDP.Base
+			x.Apply(idp)
+			md, _, err := idpkit.RoundTrip(idp.Metadata())
+			if err != nil {
+				return fail("IdP metadata does not survive xml.Marshal/Unmarshal: %v", err)
+			}
+			sp.IDPMetadata = md
+			res.Classes = append(res.Classes, "sequence:idp-reconfigured")
+			what = "IdP re-configured, SP refreshed its metadata"
+		}
 		if st.SP != nil {
 			was := conf
 			conf = *st.SP
@@ -332,7 +357,7 @@ func check(c Case) (res pbt.Result) {
 				delete(reg.M, k)
 			}
 			reg.M[md.EntityID] = md
-			what = fmt.Sprintf("SP re-registered: key %s->%s, certificate %v->%v, entity ID %q->%q", was.Key, conf.Key, was.Cert, conf.Cert, was.EntityID, conf.EntityID)
+			what += fmt.Sprintf("; SP re-registered: key %s->%s, certificate %v->%v, entity ID %q->%q", was.Key, conf.Key, was.Cert, conf.Cert, was.EntityID, conf.EntityID)
 			switch {
 			case was.Cert && conf.Cert && was.Key != conf.Key:
 				res.Classes = append(res.Classes, "re-registration:key-rotated")
@@ -624,6 +649,26 @@ func enumSequences(_ string, emit func(Case)) {
 				}
 				emit(c)
 			}
+		}
+	}
+	// the IdP re-configures itself between logins (the SP refreshes the metadata it trusts)
+	idpPlans := [][]idpkit.IDPConf{
+		{{}, {SigMethod: dsig.RSASHA256SignatureMethod}, {}},
+		{{SigMethod: dsig.RSASHA512SignatureMethod}, {KeyName: "idp2"}, {KeyName: "idp2", Signer: true, SigMethod: dsig.RSASHA256SignatureMethod}},
+		{{Signer: true}, {Intermediates: 2}, {KeyName: "idpec", Signer: true, SigMethod: dsig.ECDSASHA256SignatureMethod}, {}},
+	}
+	for _, plan := range idpPlans {
+		for _, cert := range []bool{false, true} {
+			first := plan[0]
+			first.Base = "https://idp.example.com"
+			c := Case{IDP: first, SP: SPConf{Key: "sp", Cert: cert, Binding: "post"}, Sess: user(n), Relay: "rs"}
+			n++
+			for k := range plan[1:] {
+				x := plan[1+k]
+				c.Steps = append(c.Steps, Step{IDP: &x, Sess: user(n)})
+				n++
+			}
+			emit(c)
 		}
 	}
 	for pending := 1; pending <= 3; pending++ {
